@@ -201,6 +201,9 @@ func c09CLI(c *fw.Ctx) fw.Outcome {
 	cs := make([]tcue, n)
 	var maxEnd int64
 	var t int64
+	if r.P(1, 6) {
+		t = r.I64n(12 * 3600e3) // hours into the programme
+	}
 	for i := range cs {
 		t += int64(r.Intn(5000))
 		s := t
